@@ -38,7 +38,7 @@ from oracles import cellcheck
 
 scheduler.DIMENSION_COUNT = 3
 
-CELL_PROPS = ('C01', 'C04', 'C05')
+CELL_PROPS = ('C01', 'C03', 'C04', 'C05', 'C06', 'C08')
 _TRUTH = None
 _WRAPPED = False
 
@@ -62,6 +62,14 @@ def _own_vec(data):
             _own_mb(data.get('disk', 0))]
 
 
+_TIME_SCALE = {'S': 1, 'M': 60, 'H': 3600, 'D': 86400}
+
+
+def _own_seconds(value):
+    text = str(value).strip().upper()
+    return float(int(text[:-1]) * _TIME_SCALE[text[-1]])
+
+
 class MasterTruth:
     """What the harness itself reads from the records the master loaded."""
 
@@ -69,7 +77,12 @@ class MasterTruth:
         self.srv = {}
         self.apps = {}
         self.groups = {}
+        self.allocations = []     # the list the master loaded last
+        self.app_alloc = {}       # app -> (partition, path tuple, alloc dict)
+        self.down = {}            # server -> [smin, smax] (observation based)
+        self.last_not_down = {}   # server -> time last observed not down
 
+    # -- C01 / C04 / C05
     def capacity_of(self, sname):
         data = self.srv.get(sname)
         return _own_vec(data) if data else None
@@ -103,6 +116,78 @@ class MasterTruth:
             return 'schedule-once-evicted'
         return 'other'
 
+    # -- C03 / C06: the harness's own reading of the assignment rules
+    def assign(self, aname):
+        """(partition, allocation path, allocation record or None)."""
+        import fnmatch
+        key = aname[:aname.find('.')]
+        for alloc in self.allocations:
+            for asg in alloc.get('assignments', []):
+                pattern = asg['pattern']
+                if pattern[:pattern.find('.')] != key:
+                    continue
+                if fnmatch.fnmatchcase(aname, pattern + '[#]' + '[0-9]' * 10):
+                    import re
+                    path = (alloc.get('partition'),) + tuple(
+                        re.split('[/:]', alloc['name']))
+                    return alloc.get('partition'), path, alloc
+        return '_default', ('_default', '_default', key), None
+
+    def partition_of(self, aname):
+        return self.app_alloc[aname][0]
+
+    def alloc_of(self, aname):
+        return self.app_alloc[aname][1]
+
+    def alloc_info(self, apath):
+        for alloc in self.allocations:
+            import re
+            path = (alloc.get('partition'),) + tuple(
+                re.split('[/:]', alloc['name']))
+            if path == tuple(apath):
+                rank = alloc.get('rank')
+                return {'reserved': _own_vec(alloc),
+                        'rank': rank if rank is not None else 100,
+                        'adj': alloc.get('rank_adjustment') or 0,
+                        'maxu': alloc.get('max_utilization'),
+                        'traits': alloc.get('traits', [])}
+        return None
+
+    def trait_names_of(self, aname):
+        names = set(self.apps.get(aname, {}).get('traits', []) or [])
+        alloc = self.app_alloc.get(aname, (None, None, None))[2]
+        if alloc:
+            names |= set(alloc.get('traits', []) or [])
+        return names
+
+    def traits_of(self, aname):
+        return sorted(self.trait_names_of(aname))
+
+    def srv_label(self, sname):
+        return self.srv[sname].get('partition') or '_default'
+
+    def srv_traits(self, sname):
+        return sorted(self.srv[sname].get('traits', []) or [])
+
+    def valid_for(self, aname, sname):
+        if self.srv_label(sname) != self.partition_of(aname):
+            return 'partition'
+        if not self.trait_names_of(aname) <= set(self.srv_traits(sname)):
+            return 'traits'
+        return None
+
+    def lease_of(self, aname):
+        return _own_seconds(self.apps[aname].get('lease', '0s'))
+
+    def retention_of(self, aname):
+        value = self.apps[aname].get('data_retention_timeout')
+        return _own_seconds(value) if value is not None else None
+
+    # -- C08: when did each server go down, from the harness's observations
+    def down_interval(self, sname):
+        iv = self.down.get(sname)
+        return tuple(iv) if iv else None
+
 
 def _install_truth_wrappers():
     global _WRAPPED
@@ -111,6 +196,15 @@ def _install_truth_wrappers():
     _WRAPPED = True
     orig_create_server = loadermod.Loader.create_server
     orig_load_app = loadermod.Loader.load_app
+    orig_load_allocations = loadermod.Loader.load_allocations
+
+    def load_allocations(self):
+        rc = orig_load_allocations(self)
+        if _TRUTH is not None:
+            _TRUTH.allocations = list(
+                self.backend.get_default(z.ALLOCATIONS, default={}) or [])
+        return rc
+
     orig_conf = scheduler.Cell.configure_identity_group
     orig_rm = scheduler.Cell.remove_identity_group
 
@@ -129,8 +223,10 @@ def _install_truth_wrappers():
                         z.path.scheduled(appname))
                     if manifest:
                         truth.apps[appname] = manifest
+                truth.app_alloc[appname] = truth.assign(appname)
             else:
                 truth.apps.pop(appname, None)
+                truth.app_alloc.pop(appname, None)
         return rc
 
     def configure_identity_group(self, name, count):
@@ -145,6 +241,7 @@ def _install_truth_wrappers():
 
     loadermod.Loader.create_server = create_server
     loadermod.Loader.load_app = load_app
+    loadermod.Loader.load_allocations = load_allocations
     scheduler.Cell.configure_identity_group = configure_identity_group
     scheduler.Cell.remove_identity_group = remove_identity_group
 
@@ -258,7 +355,10 @@ class World:
         self.cur_cell = master.cell
         if self.prop in CELL_PROPS:
             global _TRUTH
+            old_truth = self.truth
             self.truth = MasterTruth()
+            if old_truth is not None:
+                self.truth.last_not_down = dict(old_truth.last_not_down)
             _TRUTH = self.truth
         self._guard('start', lambda: (master.create_rootns(),
                                       master.store_timezone()))
@@ -289,6 +389,7 @@ class World:
         ctx.pre_srv = cellcheck.snapshot_servers(cell)
         ctx.rec = cellobs.Recorder()
         ctx.t0 = self.clock.peek()
+        self.observe_states(ctx)
         cellobs.set_recorder(ctx.rec)
         try:
             ctx.placement = orig_schedule(cell)
@@ -302,10 +403,18 @@ class World:
                       for n, p in ctx.post.items())
         evictions = any(e[0] == 'remove' and e[3] == 'find'
                         for e in ctx.rec.events)
-        if self.prop == 'C01':
+        if self.prop in ('C01', 'C03'):
             self.nontrivial += 1 if changed else 0
         elif self.prop == 'C04':
             self.nontrivial += 1 if evictions else 0
+        elif self.prop == 'C06':
+            self.nontrivial += 1 if any(
+                len({self.truth.alloc_of(e[5]) for e in ents}) > 1
+                for _l, ents in ctx.rec.entries) else 0
+        elif self.prop == 'C08':
+            self.nontrivial += 1 if any(
+                ctx.pre_srv.get(p.server, (None,))[0] in ('down', 'frozen')
+                for p in ctx.pre.values()) else 0
         else:
             self.nontrivial += 1 if any(
                 p.identity is not None for p in ctx.post.values()) else 0
@@ -313,6 +422,33 @@ class World:
         if bad is not None:
             self.fail(bad[0] + ':master-level', bad[1])
         return ctx.placement
+
+    def observe_states(self, ctx):
+        """Harness-side bounds on when each server went down.  smin = the
+        last instant the harness saw the server not down (or the last world
+        op that could change its state), smax = the first instant it saw it
+        down since then.  Sound whatever the master recorded: the true
+        instant lies in [smin, smax]."""
+        truth = self.truth
+        now = ctx.t0
+        for sname, (state, _since) in ctx.pre_srv.items():
+            if state != 'down':
+                truth.last_not_down[sname] = now
+                truth.down.pop(sname, None)
+            elif sname not in truth.down:
+                truth.down[sname] = [
+                    truth.last_not_down.get(sname, float('-inf')), now]
+        for sname in list(truth.down):
+            if sname not in ctx.pre_srv:
+                del truth.down[sname]
+
+    def touch_state(self, sname=None):
+        """A world op may have changed a server's state: forget bounds."""
+        if self.truth is None:
+            return
+        names = [sname] if sname else list(self.truth.down)
+        for name in names:
+            self.truth.down.pop(name, None)
 
     def _guard(self, where, fn):
         try:
@@ -353,6 +489,7 @@ class World:
     def op_srv_set(self, op):
         """Server record written (admin creates it, the node reports its
         capacity), followed by the 'servers' event masterapi posts."""
+        self.touch_state(op['name'])
         name = op['name']
         node = z.path.server(name)
         data = {'parent': op['parent'], 'partition': op['partition'],
@@ -364,6 +501,7 @@ class World:
         self.dirty_since_cycle = True
 
     def op_srv_delete(self, op):
+        self.touch_state(op['name'])
         if self.zk.nodes.get(z.path.server(op['name'])) is None:
             return
         masterapi.delete_server(self.admin, op['name'])
@@ -371,6 +509,7 @@ class World:
         self.dirty_since_cycle = True
 
     def op_presence_up(self, op):
+        self.touch_state(op['name'])
         name = op['name']
         if self.zk.nodes.get(z.path.server(name)) is None:
             return
@@ -382,6 +521,7 @@ class World:
         self.dirty_since_cycle = True
 
     def op_presence_down(self, op):
+        self.touch_state(op['name'])
         client = self.node_sessions.get(op['name'])
         if client is None or not client.connected:
             return
@@ -424,6 +564,7 @@ class World:
         self.dirty_since_cycle = True
 
     def op_srv_state(self, op):
+        self.touch_state(op['name'])
         masterapi.update_server_state(self.admin, op['name'], op['state'],
                                       op.get('apps'))
         self.faults['server_state_event'] += 1
@@ -442,6 +583,17 @@ class World:
         else:
             zkutils.ensure_deleted(self.admin, path)
         self.faults['blackout'] += 1
+        self.dirty_since_cycle = True
+
+    def op_cell_bucket(self, op):
+        """A top level bucket is detached from / attached to the cell."""
+        self.touch_state()
+        if op['present']:
+            masterapi.cell_insert_bucket(self.admin, op['name'])
+        else:
+            masterapi.cell_remove_bucket(self.admin, op['name'])
+        self.faults['cell_bucket_changed'] = \
+            self.faults.get('cell_bucket_changed', 0) + 1
         self.dirty_since_cycle = True
 
     def op_running(self, op):
@@ -960,6 +1112,18 @@ class Generator:
         cur = world.zk.nodes.get(z.path.blackedout_server(name)) is not None
         return {'op': 'blackout_server', 'name': name, 'flag': not cur}
 
+    def g_cell_bucket(self, world):
+        pods = [p for p, _r in self.config['topology']]
+        name = self.rng.choice(pods)
+        present = world.zk.nodes.get(z.path.cell(name)) is not None
+        if present and self.rng.random() < 0.5:
+            # bias: a fail-over while the detached servers still hold records
+            self.follow.extend(self.rng.choice([
+                [{'op': 'restart'}],
+                [{'op': 'drain'}, {'op': 'restart'}],
+                [{'op': 'drain'}, {'op': 'master_cycle'}]]))
+        return {'op': 'cell_bucket', 'name': name, 'present': not present}
+
     def g_running(self, world):
         stored = sorted(world.stored_placement())
         return {'op': 'running', 'name': self.rng.choice(stored)} \
@@ -1039,7 +1203,7 @@ OP_WEIGHTS = [
     ('apps_blacklist', 2), ('blackout_server', 1), ('running', 4),
     ('advance', 8), ('snap', 10), ('process', 14), ('drain', 10),
     ('master_cycle', 22), ('integrity', 3), ('tick', 1), ('restart', 3),
-    ('failover_after_down', 3), ('identity_churn', 3),
+    ('failover_after_down', 3), ('identity_churn', 3), ('cell_bucket', 2),
 ]
 
 
@@ -1141,7 +1305,7 @@ def make_config(prop, tier, rng):
 
 class MasterSim(enginemod.Engine):
     name = 'mastersim'
-    serves = ('C09', 'C10', 'C11', 'C01', 'C04', 'C05')
+    serves = ('C09', 'C10', 'C11') + CELL_PROPS
     real_components = (
         'treadmill.scheduler.master.Master (create_rootns, load_model, '
         'init_schedule, process and every event handler, reschedule, '
